@@ -1,6 +1,7 @@
 import Hannibal.Driver.Parse
 import Hannibal.Driver.Accept
 import Hannibal.Driver.Monitors
+import Hannibal.Driver.Spawn18
 import Hannibal.Generated.Wiring
 open Hannibal Hannibal.Driver
 
@@ -44,7 +45,17 @@ partial def loop (mode : String) (pid : String) (h : IO.FS.Stream) (header : Opt
   else
     loop mode pid h header (acc.push line)
 
+partial def spawnLoop (r : Runtime) (h : IO.FS.Stream) : IO Unit := do
+  let line ← h.getLine
+  if line.isEmpty then return ()
+  let line := String.ofList (line.toList.filter (fun c => c != '\n' && c != '\r'))
+  IO.println (checkLine r line)
+  spawnLoop r h
+
 def main (args : List String) : IO Unit := do
   let mode := args.headD "accept"
+  if mode == "spawn18" then
+    spawnLoop (parseRuntime ((args.drop 1).headD "tokio")) (← IO.getStdin)
+    return ()
   let pid := (args.drop 1).headD "-"
   loop mode pid (← IO.getStdin) none #[]
